@@ -131,7 +131,7 @@ def run_case(case):
     from bioscrape.types import Model, parse_expression
     from bioscrape.simulator import ModelCSimInterface
     C = Counter()
-    viol = []
+    viol = util.ViolList()
     opcount = Counter()
     sp, par = case["species"], case["params"]
     s2i = {s: i for i, s in enumerate(sp)}
